@@ -74,6 +74,7 @@ def layerCmd : List (List Char) → Option (List (List Char))
     | "prefix.call", pre :: rest => (parseCall rest).map (fun c => showTranslated (PrefixFS.translate (PrefixFS.mk pre) c))
     | "prefix.readlink", [pre, stored] => some [PrefixFS.readlinkPost (PrefixFS.mk pre) stored]
     | "prefix.name", [pre, fp, bn] => some [PrefixFS.reportedName (PrefixFS.mk pre) fp bn]
+    | "prefix.infoname", [pre, fp, bn] => some [PrefixFS.reportedInfoName (PrefixFS.mk pre) fp bn]
     | "volume.call", rest => (parseCall rest).map (fun c => showTranslated (VolumeFS.translate c))
     | "volume.readlink", [stored] => some [VolumeFS.readlinkPost stored]
     | "volume.name", [fp, bn] => some [VolumeFS.reportedName fp bn]
